@@ -49,6 +49,13 @@ pub fn transliterate(d: Dialect, sql: &str) -> Result<String, String> {
         let next_is_paren = matches!(t.get(i + 1), Some(Tok::LParen));
         out.push(match tok {
             Tok::Ident(x) => sqlite_ident(x),
+            // Postgres spells a bytea value as the string '\x<hex>' (bytea hex input format); no text value of
+            // the portable workload starts with `\x`
+            Tok::Str(s) if d == Dialect::Postgres && s.starts_with("\\x") && s.len() % 2 == 0 && s[2..].chars().all(|c| c.is_ascii_hexdigit()) => {
+                let h = &s[2..];
+                let bytes: Vec<u8> = (0..h.len() / 2).map(|i| u8::from_str_radix(&h[2 * i..2 * i + 2], 16).unwrap()).collect();
+                sqlite_blob(&bytes)
+            }
             Tok::Str(s) => sqlite_str(s),
             Tok::Bytes(b) => sqlite_blob(b),
             Tok::Num(n) => n.clone(),
